@@ -92,7 +92,7 @@ loop_bound loop_init main main_ main_1 ret arg0 arg_0 member member_1 DefaultCon
 NagaConstants _NagaConstants nagaSamplerHeap nagaComparisonSamplerHeap nagaGroup0SamplerIndexArray ZeroValue
 ZeroValuearray4_int_ Constructarray4_int_ ConstructParams ConstructS fragmentinput_main vertexinput computeinput
 FragmentInput_main FragmentOutput_main VertexOutput _group_0_binding_0_cs _group_0_binding_0_fs _vs2fs_location0
-_fs2p_location0 _p2vs_location0 global global_1 unnamed unnamed_1 param param_1 phony _tmp tmp _result should_continue
+_fs2p_location0 _p2vs_location0 global global_1 unnamed unnamed_1 param param_1 _tmp tmp _result should_continue
 inverse outerProduct isinf isnan continue_ctx loop_break switch_break num_workgroups first_workgroup first_vertex first_instance __local_invocation_index
 __global_invocation_id _ArrayLength NagaBufferLength NagaBufferLengthRW NagaDimensions2D oob naga_oob u00e9 u0394 a_b`)
 
